@@ -52,7 +52,13 @@ RelIdx == DOMAIN Rels
 CfgIdx == DOMAIN Cfgs
 NOFLAG == 99
 Guises == {"plain", "mks", "cgs"}
-DevRoutes == {"raw", "to", "base", "cgsmks"}
+\* routes that end in an SI magnitude.  "shown" reads the guise the way a user does: the number shown, re-entered with the
+\* unit text shown in the same registry (the other routes go through the Unit object the quantity carries)
+DevRoutes == {"raw", "to", "base", "cgsmks", "shown"}
+\* routes that compare two shown numbers: "tosys" the configuration's tabulated guise converted to the unit the guise shows,
+\* "idem" the guise converted to the unit it already shows, "defbase" the DEFAULT constant expressed in the configuration's
+\* unit system (number and unit text)
+NumRoutes == {"tosys", "idem", "defbase"}
 Same == Cls.same
 Derived == Cls.derived
 
@@ -114,16 +120,24 @@ C15_EqualsDefault(n, cfg, o) == (DevApplicable(n, o) /\ ~Mentions(RowOf(n), cfg)
 \* ... and the quantity that documents the name (an alias bound to another row fails here)
 C15_EqualsDocumented(n, cfg, o) == (DevApplicable(n, o) /\ ~Mentions(RowOf(n), cfg) /\ QOf(n) > 0 /\ o.r.fq # NOFLAG) => o.r.fq <= Same
 \* conversions must be possible: raw/to/base always; the cgs round trip for everything without a current dimension
-C15_Comparable(n, route, o) == (o.r.o = "exc" /\ route \in DevRoutes) => (route = "cgsmks" /\ HasCurrent(DefDim(n)))
+C15_Comparable(n, route, o) == (o.r.o = "exc" /\ route \in DevRoutes \cup NumRoutes) => (route \in {"cgsmks", "defbase"} /\ HasCurrent(DefDim(n)))
+\* the number a guise shows is the number of the same quantity in the unit it shows (offset, prefixed, scaled base units included)
+C15_ShownNumber(route, o) == (o.r.o = "num" /\ route \in {"tosys", "idem"}) => o.r.fs <= Same
+\* a constant built for a registry/unit system shows what the default constant shows when expressed in that unit system
+C15_DefaultInSystem(cfg, route, o) == (o.r.o = "num" /\ route = "defbase" /\ Unmodified(cfg) /\ o.r.su) => o.r.fs <= Same
 \* ==: demanded where both sides carry the same dimension (a Gaussian and an SI guise are different dimensions by design)
-C15_EqOp(n, cfg, o) == (o.r.o = "bool" /\ AsDim(o.dv) = AsDim(o.r.rv) /\ ~Mentions(RowOf(n), cfg)) => (o.r.er /\ o.r.eq)
+\* (== compares floats exactly after conversion; a guise shown in a unit with a zero offset (degC, degF) goes through a
+\* cancellation and is compared by the magnitude routes instead)
+C15_EqOp(n, cfg, o) == (o.r.o = "bool" /\ AsDim(o.dv) = AsDim(o.r.rv) /\ ~Mentions(RowOf(n), cfg) /\ ~o.offu) => (o.r.er /\ o.r.eq)
 \* value ratio X_cgs / X_mks = 10^(3a + 2b + n) * c^n for SI dimension M^a L^b ... A^n (exponent arithmetic)
 RatioApplicable(n, cfg) == LET d == DefDim(n) IN Unmodified(cfg) /\ ~HasScaleAtom(RowOf(n)) /\ (3 * d[1] + 2 * d[2] + d[6]) % 12 = 0 /\ d[6] % 12 = 0
 ExpRatio(n) == LET d == DefDim(n) IN <<(3 * d[1] + 2 * d[2] + d[6]) \div 12, d[6] \div 12>>
 C15_Ratio(n, cfg, o) == (o.r.o = "ratio" /\ RatioApplicable(n, cfg)) => <<o.r.pr[1], o.r.pr[2]>> = ExpRatio(n)
 
 \* ---- a defining relation evaluated on the constants of a configuration
-RelApplicable(r, cfg, o) == /\ o.present /\ Unmodified(cfg)
+\* (unyt refuses by design to multiply or raise quantities in offset temperature units: such a configuration does not
+\* represent the relations that involve a pure temperature)
+RelApplicable(r, cfg, o) == /\ o.present /\ Unmodified(cfg) /\ ~o.off
                             /\ \A k \in DOMAIN Rels[r].terms : AsDim(o.pd[k]) = FormDim(Rels[r].form, RefDim(Rels[r].terms[k][1]))
 C15_Relation(r, cfg, o) == RelApplicable(r, cfg, o) => (o.exc = "" /\ o.homog /\ o.fu <= Derived /\ o.fm <= Derived)
 
@@ -163,7 +177,10 @@ ExpL2(ci, cfg) == L2From(Rows[ci].atoms, cfg, 1) \div 12
 \* outcome of a comparison route on the observed object (its dimension and unit class are the pre-state)
 ExpRoute(ci, cfg, route, o) ==
   CASE route = "raw" -> [o |-> "dev", l2 |-> IF AsDim(o.dv) = RowDim(ci) THEN ExpL2(ci, cfg) ELSE NOFLAG, exc |-> ""]
-    [] route \in {"to", "base"} -> [o |-> "dev", l2 |-> ExpL2(ci, cfg), exc |-> ""]
+    [] route \in {"to", "base", "shown"} -> [o |-> "dev", l2 |-> ExpL2(ci, cfg), exc |-> ""]
+    [] route \in {"tosys", "idem"} -> [o |-> "num", l2 |-> NOFLAG, exc |-> ""]
+    [] route = "defbase" -> IF Fallback(ci, Cfgs[cfg].cur) THEN [o |-> "exc", l2 |-> NOFLAG, exc |-> "UnitsNotReducible"]
+                            ELSE [o |-> "num", l2 |-> NOFLAG, exc |-> ""]
     [] route = "cgsmks" -> IF HasCurrent(AsDim(o.dv)) /\ ~o.uem THEN [o |-> "exc", l2 |-> NOFLAG, exc |-> "UnitsNotReducible"]
                            ELSE [o |-> "dev", l2 |-> ExpL2(ci, cfg), exc |-> ""]
     [] route = "eq" -> [o |-> "bool", l2 |-> NOFLAG, exc |-> ""]
